@@ -45,6 +45,8 @@ pub struct TrafficApp {
     pub sent_this: u32,
     pub budget: u32,
     pub nreq: u64,
+    /// true: the application has only low-priority traffic (declines when asked for high priority only)
+    pub low_only: bool,
 }
 
 impl fdl::FdlApplication for TrafficApp {
@@ -56,6 +58,7 @@ impl fdl::FdlApplication for TrafficApp {
         };
         let t = now.total_micros() * TPU;
         let hpj = hp == fdl::HighPrioOnly::Yes;
+        let want = want && !(hpj && self.low_only);
         if !want {
             self.sent_this = 0;
             self.log.borrow_mut().push(json!({"ev":"Cb","st":self.me,"app":self.id,"k":"transmit","t":t,"sent":false,"hp":hpj}));
@@ -69,7 +72,7 @@ impl fdl::FdlApplication for TrafficApp {
             Want::Status(a) => (tx.send_fdl_status_request(a, sa), a, true),
             Want::Sdn => (
                 tx.send_data_telegram(
-                    fdl::DataTelegramHeader { da: 127, sa, dsap: Some(58), ssap: Some(62), fc: fdl::FunctionCode::Request { fcb: fdl::FrameCountBit::Inactive, req: fdl::RequestType::SdnLow } },
+                    fdl::DataTelegramHeader { da: 127, sa, dsap: Some(58), ssap: Some(62), fc: fdl::FunctionCode::Request { fcb: fdl::FrameCountBit::Inactive, req: if self.rng.gen_bool(0.5) { fdl::RequestType::SdnLow } else { fdl::RequestType::SdnHigh } } },
                     2,
                     |b| b.copy_from_slice(&[0, 0]),
                 ),
